@@ -61,6 +61,7 @@ def run(ctx):
     ctx.rule('PRED', 'guarantee-dependent checkers are passed on the true edge of their predicate')
     ctx.rule('NODROP', 'no validator drops or swallows a checker result')
     ctx.rule('SIBLING', 'reports reach every leaf their cumulative validator reaches')
+    ctx.rule('LEAFREAD', 'each leaf checker (transitively) reads the data its invariant is about')
     _witness(ctx)
     for cfg in ctx.cfgs:
         prog = ctx.prog(cfg)
@@ -69,7 +70,78 @@ def run(ctx):
         _preds(ctx, cfg, prog, lv)
         _nodrop(ctx, cfg, prog, lv)
         _sibling(ctx, cfg, prog, lv)
+        _leafread(ctx, cfg, prog)
     return ctx.finish(EXPLANATION)
+
+
+# ------------------------------------------------------------------------------------------ LEAFREAD
+_T = 'core::triangulation_data_structure::Tds::'
+LEAF_READS = {
+    _T + 'validate_vertex_mappings': [('the UUID stored in each vertex', {'uuid', 'vertex_uuid_from_key'}),
+                                      ('a lookup in the UUID -> key map / key -> vertex map', {'get', 'contains_key', 'vertex_key_from_uuid'})],
+    _T + 'validate_cell_mappings': [('the UUID stored in each cell', {'uuid', 'cell_uuid_from_key'}),
+                                    ('a lookup in the UUID -> key map / key -> cell map', {'get', 'contains_key', 'cell_key_from_uuid'})],
+    _T + 'validate_cell_vertex_keys': [("each cell's vertex keys", {'vertices', 'vertex_keys', 'get_cell_vertices'}),
+                                       ('liveness of a vertex key', {'contains_key', 'get', 'get_vertex_by_key', 'contains_vertex_key'})],
+    _T + 'validate_vertex_incidence': [('liveness of the pointed cell', {'get', 'contains_key', 'get_cell', 'contains_cell'}),
+                                       ('membership of the vertex in the pointed cell',
+                                        {'contains_vertex', 'vertices', 'contains', 'get_cell_vertices', 'vertex_keys'})],
+    _T + 'validate_no_duplicate_cells': [("each cell's vertex set", {'vertices', 'get_cell_vertices', 'vertex_uuids', 'vertex_keys'})],
+    _T + 'validate_neighbors_with_facet_to_cells_map': [
+        ('the neighbour slots', {'neighbors'}),
+        ('the mirror facet of a neighbour', {'mirror_facet_index', 'compute_and_verify_mirror_facet', 'compute_expected_mirror_facet_index'}),
+        ("the neighbour's own slots (back reference)", {'validate_mutual_neighbor_back_reference', 'neighbors'})],
+    _T + 'validate_coherent_orientation': [('the neighbour slots', {'neighbors'}),
+                                           ('the vertex order of both cells', {'vertices', 'facet_permutation_parity',
+                                                                               'facet_vertices_in_cell_order', 'vertex_keys'})],
+    'core::vertex::Vertex::is_valid': [('coordinate finiteness', {'validate', 'is_finite', 'is_nan', 'is_infinite'}),
+                                       ('the UUID', {'is_nil', 'validate_uuid', 'get_version_num'})],
+    'core::cell::Cell::is_valid': [('repetition among the vertex keys', {'insert', 'contains', 'sort_unstable', 'sort', 'dedup'}),
+                                   ('the UUID', {'is_nil', 'validate_uuid', 'get_version_num'})],
+}
+
+
+def _callee_names(prog, q, depth=2, seen=None):
+    seen = seen if seen is not None else set()
+    out = set()
+    for bq in [q] + list(prog.children.get(q, [])):
+        b = prog.bodies.get(bq)
+        if b is None:
+            continue
+        for _, t in b.calls():
+            n = t.resolved or t.callee or ''
+            out.add(n.rsplit('::', 1)[-1])
+            if depth > 0 and n in prog.bodies and n not in seen:
+                seen.add(n)
+                out |= _callee_names(prog, n, depth - 1, seen)
+        for c in prog.children.get(bq, []):
+            if c not in seen:
+                seen.add(c)
+                out |= _callee_names(prog, c, depth, seen)
+    return out
+
+
+def _leafread(ctx, cfg, prog):
+    """LEAFREAD: the verdict of a leaf checker is a trusted atom, with one structural exception: a checker that never
+    reads X cannot be checking X.  For the Level 1-2 leaves, the accessors its invariant is about must be among the
+    functions it calls (through closures and two levels of crate callees).  Reachability only - not dominance, not
+    the comparison made with what is read."""
+    n = 0
+    for q, needs in sorted(LEAF_READS.items()):
+        b = prog.bodies.get(q)
+        if b is None:
+            ctx.ob('ANCHOR', 'missing|' + q, cfg, False, 'LEAFREAD table names a function that no longer exists')
+            continue
+        names = _callee_names(prog, q)
+        for (what, accepted) in needs:
+            n += 1
+            hit = sorted(names & accepted)
+            ctx.ob('LEAFREAD', '%s|%s' % (q, what), cfg, bool(hit),
+                   ('reads %s through %s' % (what, hit[:3])) if hit else
+                   'never reads %s (none of %s is called, directly or through closures / two levels of callees): the fault '
+                   'class that needs it cannot be detected by this checker' % (what, sorted(accepted)),
+                   site='%s:%d' % (b.file, b.line))
+    ctx.floor('LEAFREAD instances', 10, n, cfg)
 
 
 def _witness(ctx):
